@@ -272,14 +272,14 @@ func init() {
 		}
 		w.ext["httpposts"] = append(l[:len(l):len(l)], content)
 		rt := fn.Signature.Results().At(0).Type()
-		if w.decideBool(w.freshND("http-post-fails", "bool", 0), "http.Post") {
+		if w.decideBool(w.freshND("http-post-fails", "env-bool", 0), "http.Post") {
 			return Tuple{(*Value)(nil), w.mkError("Post: connection refused")}
 		}
 		cell := new(Value)
 		*cell = w.zero(deref(rt))
 		st := deref(rt).Underlying().(*types.Struct)
 		s := (*cell).(Struct)
-		s[fieldIndex(st, "StatusCode")] = w.freshND("http-status", "i64", 64)
+		s[fieldIndex(st, "StatusCode")] = w.freshND("http-status", "env-i64", 64)
 		// Body: http.NoBody
 		if pkg := w.prog.ImportedPackage("net/http"); pkg != nil {
 			if g, ok := pkg.Members["NoBody"].(*ssa.Global); ok {
